@@ -309,6 +309,29 @@ fn run_case(lib: &Lib, id: &Value, name: &str, args: &[Value], pred: &Value, is_
             }
         }
     }
+    // float_sum / float_product: the specification only gives the type (IEEE arithmetic is not expressible in TLA+);
+    // the value is the left-to-right fold from 0.0 / 1.0, every step rounded on its own — host f64 as the reference
+    if (name == "std.operators.float_sum" || name == "std.operators.float_product") && args.len() == 1 && args[0]["src"] == "iter" {
+        if let Some(es) = args[0]["of"]["es"].as_array() {
+            if es.iter().all(|e| k(e) == "float") {
+                let product = name.ends_with("product");
+                let mut acc: f64 = if product { 1.0 } else { 0.0 };
+                for e in es {
+                    let x = f64::from_bits(from_limbs(&e["bl"]));
+                    acc = if product { acc * x } else { acc + x };
+                }
+                for (route, out) in [("prog", &p_out), ("host", &h_out)] {
+                    if k(out) == "value" && k(&out["v"]) == "float" {
+                        let got = f64::from_bits(from_limbs(&out["v"]["bl"]));
+                        if !(got.to_bits() == acc.to_bits() || (got.is_nan() && acc.is_nan())) {
+                            mm.push("result", json!({"id": id, "name": name, "route": route, "program": text, "args": args,
+                                "expected": format!("{acc:?} (host fold)"), "observed": format!("{got:?}")}));
+                        }
+                    }
+                }
+            }
+        }
+    }
     if k(&p_out) == "value" && k(&h_out) == "value" && strip_tags(&p_out["v"]) != strip_tags(&h_out["v"])
         && !(name.starts_with("std.io.") || name.starts_with("std.fs.") || name == "std.convert.to_string") {
         mm.push("routes", json!({"id": id, "name": name, "program": text, "args": args, "prog": p_out["v"], "host": h_out["v"]}));
